@@ -545,8 +545,56 @@ func e2eBulk(o *Out, rng *rand.Rand) {
 	e2eRun(o, "e2e-bulk", cfg, reqs)
 }
 
+// e2eGcStories: directed histories around an expiry pass that purges ALL members of one role of a swarm while a member of the
+// other role survives, after which the purged role is used again (a new member joins; a leecher completes) - through the
+// UDP and the HTTP frontend.  (The random histories reach this only by luck.)
+func e2eGcStories(o *Out, rng *rand.Rand) {
+	for variant := 0; variant < 4; variant++ {
+		cfg := eCfg{Key: "e2e-key-gc", SkewNs: int64(10 * time.Second), MaxNW: 100, DefNW: 50, MaxScrape: 50, Interval: int64(30 * time.Minute), MinIntv: int64(15 * time.Minute)}
+		ih := make([]byte, 20)
+		rng.Read(ih)
+		mk := func() []byte { b := make([]byte, 20); rng.Read(b); return b }
+		a, b, c, d := mk(), mk(), mk(), mk()
+		srcA, srcB, srcC := []byte{192, 0, 2, 7}, []byte{10, 0, 0, 1}, []byte{198, 51, 100, 9}
+		udp := func(src, id []byte, left uint64, ev uint32) eReq {
+			return eReq{T: "udp", IP: hx(src), Packet: hx(e2eAnnouncePacket(rng, false, ih, id, left, ev, make([]byte, 4), 50, 6881, nil)), FixConn: true}
+		}
+		htt := func(remote string, id []byte, left uint64, ev string) eReq {
+			uri := "/announce?info_hash=" + url.QueryEscape(string(ih)) + "&peer_id=" + url.QueryEscape(string(id)) + fmt.Sprintf("&port=6881&left=%d&downloaded=0&uploaded=0&compact=1", left) + ev
+			return eReq{T: "hann", URI: hx([]byte(uri)), Remote: remote}
+		}
+		t0 := int64(1_700_000_000_000_000_000)
+		purgeLeechers := variant%2 == 0
+		viaHTTP := variant >= 2
+		reqs := []eReq{{T: "clock", Ns: t0}, udp(srcA, a, 7, 0), udp(srcB, b, 0, 0), {T: "clock", Ns: t0 + int64(10*time.Minute)}}
+		if purgeLeechers {
+			reqs = append(reqs, udp(srcB, b, 0, 0)) // the seeder stays
+		} else {
+			reqs = append(reqs, udp(srcA, a, 7, 0)) // the leecher stays
+		}
+		reqs = append(reqs, eReq{T: "gc", Ns: t0 + 5}, eReq{T: "dump"})
+		// the purged role is used again
+		if purgeLeechers {
+			if viaHTTP {
+				reqs = append(reqs, htt("198.51.100.9:6881", c, 9, ""))
+			} else {
+				reqs = append(reqs, udp(srcC, c, 9, 0))
+			}
+		} else {
+			if viaHTTP {
+				reqs = append(reqs, htt("192.0.2.7:6881", a, 0, "&event=completed"), htt("198.51.100.9:6881", c, 0, ""))
+			} else {
+				reqs = append(reqs, udp(srcA, a, 0, 1), udp(srcC, c, 0, 0))
+			}
+		}
+		reqs = append(reqs, udp(srcC, d, 3, 0), eReq{T: "hscr", URI: hx([]byte("/scrape?info_hash=" + url.QueryEscape(string(ih)))), Remote: "10.0.0.1:5"}, eReq{T: "dump"})
+		e2eRun(o, "e2e-gc-story", cfg, reqs)
+	}
+}
+
 func e2eStream(o *Out, rng *rand.Rand, n int) {
 	e2eBulk(o, rng)
+	e2eGcStories(o, rand.New(rand.NewSource(0x67635f73746f7279))) // a stream of their own: the random histories below stay what they were
 	for h := 0; h < n; h++ {
 		cfg := eCfg{Key: "e2e-key-" + fmt.Sprint(rng.Intn(1000)), SkewNs: int64(rng.Intn(3)) * int64(10*time.Second), USpoof: rng.Intn(3) == 0, HSpoof: rng.Intn(4) == 0,
 			MaxNW: []uint32{100, 3, 1}[rng.Intn(3)], DefNW: []uint32{50, 2, 5}[rng.Intn(3)], MaxScrape: []uint32{50, 2}[rng.Intn(2)],
